@@ -163,6 +163,8 @@ func (w *world1) genDatagram(t *rapid.T) dgram {
 			}
 		}
 		cands = append(cands, w.unknown)
+		// the device key's mirror (private key N-d: same X coordinate, other Y)
+		cands = append(cands, ref.MirrorKey(own), ref.MirrorKey(own))
 		if w.bannedK.Pub != ([32]byte{}) {
 			cands = append(cands, w.bannedK)
 		}
